@@ -33,7 +33,7 @@ func unbondProfile() Profile {
 func slashProfile() Profile {
 	p := baseProfile()
 	p.Name = "slash"
-	p.Weights = map[string]int{KDelegate: 22, KUndelegate: 12, KRedelegate: 18, KClaim: 3, KBlock: 14, KSlashHook: 12, KSlash: 10, KUnbTime: 2, KJail: 1, KUnjail: 1, KDelete: 1, KCreate: 1, GRedelThenExit: 5}
+	p.Weights = map[string]int{KDelegate: 22, KUndelegate: 12, KRedelegate: 18, KClaim: 3, KBlock: 14, KSlashHook: 12, KSlash: 10, KUnbTime: 2, KJail: 1, KUnjail: 1, KDelete: 1, KCreate: 1, GRedelThenExit: 5, GMultiRedelSlash: 3}
 	p.FocusDelPct = 40
 	return p
 }
@@ -122,6 +122,8 @@ func init() {
 			p.MaxSteps = 30
 			p.Weights[KBlock] = 30
 			p.Weights[KClaim] = 10
+			p.Weights[GMultiRedelSlash] = 6
+			p.Weights[GRedelThenExit] = 3
 			return tierSteps(p, tier)
 		},
 		Oracles: func() []Oracle { return []Oracle{OracleC19{}} },
